@@ -183,7 +183,7 @@ SNIPPETS: list[tuple[str, str]] = [
     ("class:attributes-assigned-outside-init", "@dataclass\nclass PI{n}:\n    w: float = 1.0\n    h: float = 2.0\n    area: float = field(init=False)\n\n    def __post_init__(self) -> None:\n        self.area = self.w * self.h\n        self.diagonal: float = (self.w ** 2 + self.h ** 2) ** 0.5\n        self.label = 'r'\n        self.a, self.b = 1, 2\n\n\nclass PJ{n}:\n    def __new__(cls, *args, **kwargs):\n        inst = super().__new__(cls)\n        inst.made_in_new = 1\n        return inst\n\n    def __init__(self) -> None:\n        self.x = 0\n        self._setup()\n\n    def _setup(self) -> None:\n        self.from_helper: int = 1\n        self.other_helper = 's'\n\n    def reset(self) -> None:\n        self.x = 0\n        self.late: list[int] = []\n\n    def __enter__(self):\n        self.entered = True\n        return self\n\n    def __exit__(self, *exc) -> None:\n        self.entered = False\n\n    @classmethod\n    def build(cls) -> 'PJ{n}':\n        cls.counter = 0\n        obj = cls()\n        obj.tag = 't'\n        return obj\n"),
     ("return:inferred:unresolvable-name", "def un{n}(a):\n    return undefined_name_{n}\n\n\ndef ua{n}(a):\n    return a.missing.attr\n\n\nclass UC{n}:\n    def m(self):\n        return other_undefined_{n}\n\n    def n(self, flag):\n        if flag:\n            return not_there_{n}(1)\n        return also_missing_{n}.attr\n"),
     ("module:definition-shadowed-by-import", "def dumps{n}(obj: object) -> str:\n    \"\"\"Pure Python fallback.\"\"\"\n    return str(obj)\n\n\nclass Decoder{n}:\n    \"\"\"Fallback class.\"\"\"\n\n\ntry:\n    from json import dumps as dumps{n}  # accelerated implementation replaces the definition above\n    from json import JSONDecoder as Decoder{n}\nexcept ImportError:\n    pass\n\n\ndef sqrt{n}(x: float) -> float:\n    \"\"\"Shadowed below.\"\"\"\n    return x\n\n\nfrom math import sqrt as sqrt{n}  # noqa: E402\n"),
-    ("return:inferred:self", "class RS{n}(NamedTuple):\n    a: int = 0\n    b: str = ''\n\n    def same(self):\n        return self\n\n    def pair(self):\n        return self, self.a\n\n\nclass RV{n}(Generic[V]):\n    def keep(self):\n        return self\n\n    def val(self, v: V):\n        return v\n\n\nclass RP{n}:\n    def me(self):\n        return self\n\n    @classmethod\n    def make(cls):\n        return cls\n\n    @staticmethod\n    def none():\n        return RP{n}\n"),
+    ("return:inferred:self-of-special-classes", "class RS{n}(NamedTuple):\n    a: int = 0\n    b: str = ''\n\n    def same(self):\n        return self\n\n    def pair(self):\n        return self, self.a\n\n\nclass RV{n}(Generic[V]):\n    def keep(self):\n        return self\n\n    def val(self, v: V):\n        return v\n\n\nclass RP{n}:\n    def me(self):\n        return self\n\n    @classmethod\n    def make(cls):\n        return cls\n\n    @staticmethod\n    def none():\n        return RP{n}\n"),
     ("class:pep695-with-collection-base", "class PA{n}[T](Sequence[T]):\n    def __getitem__(self, i):\n        raise IndexError\n\n    def __len__(self) -> int:\n        return 0\n\n\nclass PB{n}[T: int, *Ts, **P](Iterable[T]):\n    def __iter__(self):\n        return iter(())\n\n\nclass PC{n}[K, V](Mapping[K, V]):\n    def __getitem__(self, k):\n        raise KeyError\n\n    def __iter__(self):\n        return iter(())\n\n    def __len__(self) -> int:\n        return 0\n"),
     ("annotation:variable-used-as-type", "Model{n}: Any = object()\nKind{n} = Model{n}\nMaybe{n}: 'type | None' = None\n\n\ndef vt{n}(m: Model{n}, k: Kind{n} = None, o: Maybe{n} = None) -> Model{n}: ...\n\n\nclass VT{n}:\n    held: Model{n} = None\n\n    def get(self, m: 'Model{n}') -> 'list[Model{n}]': ...\n"),
     ("module:big-function", "def f{n}(" + ", ".join(f"p{i}: int = {i}" for i in range(60)) + ") -> int:\n    return 0\n"),
